@@ -51,7 +51,8 @@ TABLE = {
             ('OpyVerif.Proofs.Heap', 'Opy', None), ('OpyVerif.Proofs.HeapCode', 'Opy', None), ('OpyVerif.Generated.HeapOps', 'Opy.Gen', None)],
     'C10': [('OpyVerif.Proofs.C10', 'Opy', None), ('OpyVerif.Proofs.C10real', 'Opy', None),
             ('OpyVerif.Proofs.OpTable', 'Opy', None),
-            ('OpyVerif.Generated.Ops', 'Opy.Gen', r'opTable_eq|terminal_returns_value'),
+            ('OpyVerif.Generated.Ops', 'Opy.Gen', r'opTable_eq|terminal_returns_value|evalProg_eq'),
+            ('OpyVerif.Proofs.EvalProg', 'Opy', None), ('OpyVerif.Proofs.EvalCode', 'Opy', None),
             ('OpyVerif.Generated.Constants', 'Opy.Gen', r'nArgs_|epsilon_pos')],
     'C11': [('OpyVerif.Proofs.C11', 'Opy.PNode', None), ('OpyVerif.Proofs.NodeWalk', 'Opy', None),
             ('OpyVerif.Proofs.WalkCode', 'Opy', None), ('OpyVerif.Generated.Walks', 'Opy.Gen', None),
